@@ -25,6 +25,7 @@ type Line struct {
 	EOF    bool     // the client closes the connection after the last chunk
 	Text   string   // readable form (clipped)
 	Size   int
+	Odd    bool // rendered from a malformed / odd / cut-off line class (not a command class)
 }
 
 func (l *Line) finish() *Line {
@@ -355,5 +356,9 @@ func (r *Renderer) Render(x, tag, owner string) *Line {
 	if l := r.Command(x, tag, owner); l != nil {
 		return l
 	}
-	return r.Malformed(x, tag)
+	l := r.Malformed(x, tag)
+	if l != nil {
+		l.Odd = true
+	}
+	return l
 }
